@@ -84,6 +84,7 @@ def run(ctx, R, tier):
     R.rule("C14-R3", "MemoryStorage and SqlStorage define the same storage protocol with the same parameter lists; NameServer uses only methods both have", floor=8)
     R.rule("C14-R4", "every deletion path of NameServer.remove excludes core.NAMESERVER_NAME", floor=3)
     R.rule("C14-R5", "an argument whose len() the SQL metadata search binds as a count is a set when it gets there", floor=1)
+    R.rule("C14-R7", "a missing key raises KeyError on both back-ends", floor=1)
     R.rule("C14-R6", "removal counts: len() of the very list handed to remove_items; 1 only after the guarded delete", floor=3)
 
     # ---------------------------------------------------------------- R1 + collect DML
@@ -209,6 +210,16 @@ def run(ctx, R, tier):
     for dunder in ("__getitem__", "__setitem__", "__delitem__", "__contains__", "__len__", "__iter__"):
         R.check(dunder in sq.methods, "C14-R3", "SqlStorage|%s" % dunder, "mapping operation implemented by the sqlite back-end", sq.module.relpath,
                 "%s missing" % dunder)
+
+    # ---------------------------------------------------------------- R7
+    gi = sq.methods["__getitem__"]
+    gcfg = ctx.cfg(gi)
+    ke = [n for n in gcfg.nodes if n.kind == "stmt" and isinstance(n.ast, ast.Raise) and isinstance(n.ast.exc, ast.Call) and unparse(n.ast.exc.func) == "KeyError"]
+    fall = [e for e in gcfg.exit.pred if e.src.id in gcfg.live() and not (e.src.kind == "stmt" and isinstance(e.src.ast, ast.Return))]
+    lk = ctx.fn("Pyro5.nameserver.NameServer.lookup")
+    handles = any(isinstance(h, ast.ExceptHandler) and h.type is not None and unparse(h.type) == "KeyError" for h in ast.walk(lk.node))
+    R.check(bool(ke) and not fall and handles, "C14-R7", "SqlStorage.__getitem__|missing-raises-KeyError", "a missing name raises KeyError on sqlite as it does on the dict back-end (lookup/set_metadata turn it into NamingError)",
+            gi.loc(), "SqlStorage.__getitem__ can return None / not raise KeyError for a missing name")
 
     # ---------------------------------------------------------------- R4 / R6
     rm = ctx.fn("Pyro5.nameserver.NameServer.remove")
